@@ -41,8 +41,8 @@ TDProduce(e) ==
 TDQuery(e) ==
   /\ CASE e.ev = "eval" -> Req("C07", e.val = (e.a[2] \in den[e.a[1]]))
        [] e.ev = "wmc" -> Req("C07",
-            /\ Normalised(e.sr, e.p, e.w, e.wexp, nv)
-            /\ e.val = Comps(WMC(e.sr, e.p, den[e.a[1]], e.w, e.wexp, nv), nv * e.wexp)
+            /\ Normalised(e.sr, e.p, e.w, WX(e.wexp, nv), nv)
+            /\ e.val = Comps(WMC(e.sr, e.p, den[e.a[1]], e.w, WX(e.wexp, nv), nv), nv * e.wexp)
             /\ (IF "den" \in DOMAIN e THEN e.den = 1 ELSE TRUE)
             /\ (IF "tail0" \in DOMAIN e THEN e.tail0 ELSE TRUE))
   /\ UNCHANGED tdvars
